@@ -25,8 +25,9 @@ def drive(V, cfg, order="sender-first", tag=""):
     rec = asyncsym.Recorder()
     ph_s = V.grid("phase_snd", lo=0, hi=Fraction(1, 4))
     ph_r = V.grid("phase_rcv", lo=0, hi=Fraction(1, 2))
-    snd = asyncsym.mk_node(V, rec, "snd", cfg["rate_out"], phase=ph_s)
-    rcv = asyncsym.mk_node(V, rec, "rcv", cfg["rate_in"], phase=ph_r, advance=cfg.get("advance", False))
+    sched = lambda k: Scheduling.PHASE if cfg.get(k) == "phase" else Scheduling.FREQUENCY
+    snd = asyncsym.mk_node(V, rec, "snd", cfg["rate_out"], phase=ph_s, scheduling=sched("sched_snd"))
+    rcv = asyncsym.mk_node(V, rec, "rcv", cfg["rate_in"], phase=ph_r, advance=cfg.get("advance", False), scheduling=sched("sched_rcv"))
     c = asyncsym.mk_conn(V, rec, snd, rcv, blocking=cfg["blocking"], skip=cfg["skip"], jitter=Jitter.BUFFER if cfg["jitter"] == "buffer" else Jitter.LATEST,
                          window=cfg["W"], phase=V.grid("cphase", lo=0, hi=Fraction(1, 2)) if cfg["jitter"] == "buffer" else 0)
     for w, bound in ((snd, M), (rcv, K)):
@@ -326,7 +327,15 @@ def configs(tier):
                 if th and (jitter == "buffer" or blocking):
                     M, K = (3, 2) if ro > ri else (2, 3)
                 out.append(dict(M=M, K=K, W=W, rate_in=ri, rate_out=ro, blocking=blocking, skip=skip, jitter=jitter))
-    return out
+    # scheduling / advance variants of the two nodes (PHASE scheduling, an advancing receiver that only waits for its blocking input)
+    var = [dict(M=2, K=2, W=1, rate_in=10, rate_out=20, blocking=False, skip=False, jitter="latest", sched_rcv="phase", sched_snd="phase"),
+           dict(M=2, K=2, W=1, rate_in=10, rate_out=10, blocking=True, skip=False, jitter="latest", advance=True)]
+    if th:
+        var += [dict(M=3, K=2, W=2, rate_in=10, rate_out=20, blocking=True, skip=False, jitter="latest", sched_rcv="phase"),
+                dict(M=2, K=3, W=1, rate_in=20, rate_out=10, blocking=False, skip=True, jitter="latest", sched_snd="phase"),
+                dict(M=3, K=2, W=1, rate_in=10, rate_out=20, blocking=True, skip=True, jitter="latest", advance=True, sched_rcv="phase"),
+                dict(M=2, K=2, W=2, rate_in=10, rate_out=10, blocking=False, skip=False, jitter="buffer", sched_rcv="phase", sched_snd="phase")]
+    return out + var
 
 
 def run(rep):
